@@ -143,3 +143,14 @@ Ltac normo :=
 Ltac evno := repeat (progress (evo; normo)).
 Ltac asgo := assign3x ltac:(evno; reflexivity).
 Ltac ifstepo := ifstep3_t ltac:(evno; reflexivity).
+
+(* x.m(a1, a2) as a statement with a method that is not a container method: the "$method!." protocol of Interp.exec - the
+   unit's ext returns the updated receiver, which is written back to x *)
+Lemma xexec_seq_mutmeth2 ext x m a1 a2 b st tv v1 v2 nv :
+  lookup x (vars st) = Some tv -> lookup a1 (vars st) = Some v1 -> lookup a2 (vars st) = Some v2 ->
+  method tv m [v1; v2] = None -> ext ("$method!." ++ m) [tv; v1; v2] [] st = Ok nv st ->
+  exec ext (SSeq (SExpr (EMeth (EName x) m [EName a1; EName a2] [])) b) st = exec ext b (set_var x nv st).
+Proof.
+  intros Hx H1 H2 Hm He. cbn [exec eval]. rewrite Hx. cbn [bind]. rewrite H1. cbn [bind]. rewrite H2. cbn [bind].
+  rewrite Hm, He. cbn [bind store]. reflexivity.
+Qed.
